@@ -794,7 +794,9 @@ func runC20(c *core.Ctx, i int) {
 			return
 		}
 	}
-	if log.writes[latest] != m.writes {
+	// at least once per occurrence (an implementation may legitimately encode in two passes); a bypass is
+	// additionally visible to the reference decoder because the custom encodings transform the value
+	if log.writes[latest] < m.writes {
 		c.Violate("write-invocations", fmt.Sprintf("%s: custom Write invoked %d times, the values contain %d non-null occurrences of the type", k.name, log.writes[latest], m.writes), rep)
 		return
 	}
@@ -811,7 +813,7 @@ func runC20(c *core.Ctx, i int) {
 			return
 		}
 	}
-	if log.reads[latest] != m.writes {
+	if log.reads[latest] < m.writes {
 		c.Violate("read-invocations", fmt.Sprintf("%s: custom Read invoked %d times for %d non-null occurrences", k.name, log.reads[latest], m.writes), rep)
 		return
 	}
@@ -848,7 +850,7 @@ func init() {
 		Technique: "runtime monitoring: instrumented custom codecs (unique id per registration, every Read/Write/Skip/New/Omit logged, value-transforming encodings) registered for 7 custom types placed in 15 positions of a generic holder struct; invocation log, emitted schema, reference-decoded bytes and round trip are checked per case",
 		Rule: "custom types of struct, named int64, named string, named []int64, named []byte kinds with registered schemas primitive / array / record / [null,long]; positions: field, *T, **T, []T, []*T, map[string]T, map[string]*T, omitempty T, omitempty *T, nested struct field and slice; 1-3 registrations per case with RegisterSchema before/between/after; unregistered look-alike types alongside; " +
 			"distinct_nontrivial = distinct (type, registrations, order, codec) combinations",
-		Explanation: "Each custom codec writes a transformed encoding (e.g. v xor 0x2A), so a position that bypasses it is visible to the reference decoder, not only in the log. Oracle: only the most recent registration's builder is consulted; the schema at every position is the registered one under the documented mapping; Write is invoked exactly once per non-null occurrence and Read once per non-null occurrence; unregistered look-alike types (same underlying kind) are encoded plainly; values round-trip.",
+		Explanation: "Each custom codec writes a transformed encoding (e.g. v xor 0x2A), so a position that bypasses it is visible to the reference decoder, not only in the log. Oracle: only the most recent registration's builder is consulted; the schema at every position is the registered one under the documented mapping; Write and Read are each invoked at least once per non-null occurrence; unregistered look-alike types (same underlying kind) are encoded plainly; values round-trip.",
 		Assumptions: []string{"custom codecs honour the omit argument (Omit = omit && zero); open finding c01.nested-null is kept out of the values", "concurrent registration is covered by C12 (porcupine register model)"},
 		Modes: func(tier string) []core.Mode {
 			m := []core.Mode{{Name: "plain", Variant: "plain"}, {Name: "checkptr", Variant: "checkptr", CaseDiv: 3}}
